@@ -1,6 +1,7 @@
 package main
 
 import (
+	"sync"
 	"fmt"
 	"go/types"
 	"strings"
@@ -12,7 +13,8 @@ import (
 // World is the per-run universe shared by all functions: sorts for Go types,
 // field ids, type ids, string ids, global ids.
 type World struct {
-	b *TermBank
+	b  *TermBank
+	mu sync.Mutex
 
 	structs    typeutil.Map // *types.Struct (canonical) -> *StructInfo
 	structList []*StructInfo
@@ -25,6 +27,8 @@ type World struct {
 	funcIDs  map[*ssa.Function]int
 	fidNext  int
 	heapSort map[string]Sort // heap name -> array sort
+	uninterp map[string]string // smt name -> "(argsorts) ressort"
+	exemptFID map[int]bool     // field ids never subject to frame conditions
 }
 
 type GhostField struct {
@@ -65,6 +69,8 @@ func NewWorld() *World {
 		globIDs:  map[*ssa.Global]int{},
 		funcIDs:  map[*ssa.Function]int{},
 		heapSort: map[string]Sort{},
+		uninterp: map[string]string{},
+		exemptFID: map[int]bool{},
 	}
 }
 
@@ -197,7 +203,7 @@ func (w *World) structInfo(t types.Type) *StructInfo {
 	for i := 0; i < st.NumFields(); i++ {
 		f := st.Field(i)
 		w.fidNext++
-		si.Fields = append(si.Fields, FieldInfo{Name: f.Name(), Type: f.Type(), FID: w.fidNext, Sel: fmt.Sprintf("%s-%s", nm, sanitize(f.Name()))})
+		si.Fields = append(si.Fields, FieldInfo{Name: f.Name(), Type: f.Type(), FID: w.fidNext, Sel: fmt.Sprintf("%s-%d%s", nm, i, sanitize(f.Name()))})
 	}
 	var sels []string
 	for _, f := range si.Fields {
@@ -439,6 +445,9 @@ func (w *World) Prelude() string {
 	}
 	for i := 0; i < len(w.structList); i++ {
 		emit(w.structList[i])
+	}
+	for _, nm := range sortedKeys(w.uninterp) {
+		fmt.Fprintf(&sb, "(declare-fun %s %s)\n", nm, w.uninterp[nm])
 	}
 	return sb.String()
 }
